@@ -974,9 +974,9 @@ func TestC14(t *testing.T) {
 	}
 
 	// 2. exhaustive enumeration
-	maxN := 7
+	maxN, extra := 7, 1 // multisets of up to n+extra entries
 	if thorough {
-		maxN = c14MaxN
+		maxN, extra = c14MaxN, 2
 	}
 	idx := 0
 	stop := false
@@ -986,7 +986,7 @@ func TestC14(t *testing.T) {
 			if path == "block" {
 				collector = -1
 			}
-			c14EachCounts(n+1, func(k c14Counts) {
+			c14EachCounts(n+extra, func(k c14Counts) {
 				if stop || !c14Feasible(n, collector, k) || !c14FeasiblePath(path, k) {
 					return
 				}
@@ -1013,7 +1013,7 @@ func TestC14(t *testing.T) {
 		}
 	}
 	if thorough {
-		c.SetExhaustive("certificates: n<=10, class multisets up to n+1 entries; paths proposal/block/smr/collect: 2 placements x 2 orders (collect: + 2 batched deliveries); paths tdpos/xpoa CheckMinerMatch: placements {fresh-first, canonical order} and {present-first, reversed}")
+		c.SetExhaustive("certificates: n<=10, class multisets up to n+2 entries; paths proposal/block/smr/collect: 2 placements x 2 orders (collect: + 2 batched deliveries); paths tdpos/xpoa CheckMinerMatch: placements {fresh-first, canonical order} and {present-first, reversed}")
 	} else {
 		c.SetExhaustive("certificates: class multisets up to n+1 entries; n<=5: paths proposal/block/smr/collect, placements {fresh-first, canonical order} and {present-first, reversed}, collect + batched delivery; n<=4: paths tdpos/xpoa CheckMinerMatch, canonical placement; n=6: paths proposal/block/smr/collect, canonical placement; n=7: paths proposal/block, canonical placement")
 	}
